@@ -35,7 +35,7 @@
 (*             otherwise nothing is replayed and the validator may sign         *)
 (*             anything at heights it has already voted on.                      *)
 (***************************************************************************)
-EXTENDS Integers, Sequences, FiniteSets, TLC
+EXTENDS Integers, Sequences, FiniteSets, TLC, Json
 
 CONSTANTS MaxH,         \* heights 1..MaxH
           FlushEvery    \* TRUE: state flushed every block; FALSE: recent state kept in memory
@@ -123,6 +123,16 @@ CrashRecover ==
 
 Next == Step \/ CrashRecover
 Spec == Init /\ [][Next]_vars
+
+\* votes published at heights the restarted validator will go through again WITHOUT remembering them:
+\* there it may sign anything (no last-sign state) — the crash points where this set is non-empty are exactly
+\* the ones at which NoConflictingSignature can be violated
+Exposed(r) == {x \in published : x[1] >= r.resume /\ ~(r.replay /\ x[1] = r.resume)}
+\* one line per crash point, for the comparison with the real restarts (harness/node TestCrashSweep)
+DumpCrash == crashes' = crashes \/
+             PrintT(ToJson([mode |-> IF FlushEvery THEN "flush" ELSE "memory", h |-> h, step |-> Steps[pc],
+                            head |-> rec'.head, state |-> rec'.state, resume |-> rec'.resume, replay |-> rec'.replay,
+                            exposed |-> Cardinality(Exposed(rec'))]))
 
 (******************************* property C05 *******************************)
 \* never signs a vote that conflicts with one it had published before the crash
